@@ -170,18 +170,18 @@ type Config struct {
 }
 
 type Net struct {
-	Cfg     Config
-	GenDoc  *types.GenesisDoc
-	Nodes   map[int]*Node
-	Order   []int // correct node keys, ascending
+	Cfg    Config
+	GenDoc *types.GenesisDoc
+	Nodes  map[int]*Node
+	Order  []int // correct node keys, ascending
 	// GossipMode: order of one idealised-gossip pass (see gossipOrder); "" = chronological
 	GossipMode string
 	StopHeight int64 // idealised gossip stops once every correct node has decided this height (0 = never)
-	Pool    []*Packet
-	Events  []string
-	Blocked map[[2]int]bool // (from,to) pairs currently cut
-	NextPkt int
-	closed  bool
+	Pool       []*Packet
+	Events     []string
+	Blocked    map[[2]int]bool // (from,to) pairs currently cut
+	NextPkt    int
+	closed     bool
 	// Deliveries[j]: every packet handed to node j, with the index of the "deliver" event
 	Deliveries map[int][]Delivery
 	claims     map[string]bool
@@ -527,6 +527,23 @@ func (net *Net) AltBlock(like *Node, k int, txs []types.Tx, mutate func(*types.B
 	if mutate != nil {
 		mutate(b)
 	}
+	return b, b.MakePartSet(types.BlockPartSizeBytes)
+}
+
+// AltBlockWithCommit builds a block for like's current height on top of a LastCommit chosen by the caller (a faulty
+// proposer is free to put any commit there; MakeBlock derives block time and LastCommitHash from it consistently).
+func (net *Net) AltBlockWithCommit(like *Node, k int, txs []types.Tx, commit *types.Commit) (b *types.Block, ps *types.PartSet) {
+	defer func() {
+		if r := recover(); r != nil { // e.g. MedianTime over a commit without any counting signature
+			b, ps = nil, nil
+		}
+	}()
+	st := like.CS.VerifSMState()
+	h := like.RS().Height
+	if h == st.InitialHeight || commit == nil {
+		return nil, nil
+	}
+	b, _ = st.MakeBlock(h, txs, commit, nil, lib.Key(k).PubKey().Address())
 	return b, b.MakePartSet(types.BlockPartSizeBytes)
 }
 
